@@ -26,13 +26,21 @@ struct ArmedThrow : std::runtime_error {
   ArmedThrow() : std::runtime_error("armed constructor") {}
 };
 
-template <int Tag, bool CanThrow = false>
-struct Tr {
+// ThrowEarly: an armed construction throws before any member is written (the element's storage is untouched); otherwise it
+// throws from the constructor body, after `v` was stored.
+template <bool Early>
+struct ThrowGate {
+  ThrowGate() { if (Early && life().throw_countdown > 0 && --life().throw_countdown == 0) throw ArmedThrow(); }
+  ThrowGate(const ThrowGate&) : ThrowGate() {}
+  ThrowGate& operator=(const ThrowGate&) { return *this; }
+};
+template <int Tag, bool CanThrow = false, bool ThrowEarly = false>
+struct Tr : ThrowGate<CanThrow && ThrowEarly> {
   static constexpr uint32_t kAlive = 0xA11FE000u + Tag, kDead = 0xDEADDEADu;
   int v;
   uint32_t cookie;
   void reg() {
-    if (CanThrow && life().throw_countdown > 0 && --life().throw_countdown == 0) throw ArmedThrow();
+    if (CanThrow && !ThrowEarly && life().throw_countdown > 0 && --life().throw_countdown == 0) throw ArmedThrow();
     if (!life().live.insert(this).second) life().fail("constructed over a live object (tag " + std::to_string(Tag) + ")");
     life().ctors++;
     cookie = kAlive;
